@@ -158,8 +158,19 @@ def exec_c03(cfg, devs):
                 snap['prefill'] = s0.get('connected')
                 snap['rx_before'] = len(dev.rx)
             cf = Crazyflie(**kw)
-            if cfg['cache'] == 'rw2':
-                pass
+            if cfg.get('prior'):
+                # history: the same Crazyflie object has had a complete fault-free session with ANOTHER device before
+                # (other protocol generation / no versioning / other tables): nothing of it may survive into this one
+                dev0 = build_device(dict(cfg, **cfg['prior']))
+                fr = ex.frozen
+                ex.freeze()
+                ex.env.dev = dev0
+                s0 = {}
+                _session(ex, cf, s0, 30.0)
+                ex.env.dev = dev
+                ex.frozen = fr
+                ex.s.frozen = fr
+                snap['prior_connected'] = s0.get('connected')
             _session(ex, cf, snap, cfg['T'])
             snap['state_end'] = cf.state
         ex.run(main)
@@ -184,6 +195,10 @@ def exec_c03(cfg, devs):
         p.violation('toc:thread_died|%s' % fclass, '%s devs=%r: library thread died: %s' % (cname, devs, s.died[0][:2]), rp)
     if s.status != 'ok':
         p.violation('toc:%s|%s' % (s.status, fclass), '%s devs=%r: %s; blocked: %r' % (cname, devs, s.status, s.blocked_report), rp)
+        return p, ex.ch.ns, ex.ch.labels
+    if cfg.get('prior') and snap.get('prior_connected') != 1:
+        p.violation('toc:prior_session_incomplete|%s' % fclass, '%s: the fault-free session with the first device signalled '
+                    'connected %r times' % (cname, snap.get('prior_connected')), rp)
         return p, ex.ch.ns, ex.ch.labels
     if 'connected' not in snap:
         p.violation('toc:never_connected|%s' % fclass,
@@ -256,6 +271,19 @@ def configs_small():
     c = _cfg('small:p10:l2p3:rs:unsol', 10, True, 2, 3, style='long', resend=True)
     c['unsol_at_connect'] = True
     out.append(c)
+    # the same object after a complete session with another device
+    for nm, (proto, ver, nl, np_), prior, cache in (
+            ('p10>p3', (3, True, 2, 2), {'proto': 10}, 'none'),
+            ('p10>nov', (10, False, 2, 2), {'versioning': True}, 'none'),
+            ('p3>p10', (10, True, 2, 3), {'proto': 3}, 'none'),
+            ('nov>p10', (10, True, 2, 3), {'versioning': False}, 'none'),
+            ('p4>p10', (10, True, 2, 3), {'proto': 4}, 'none'),
+            ('l3p2>l2p3', (10, True, 2, 3), {'nlog': 3, 'nparam': 2}, 'none'),
+            ('l3p4>l2p3:cache', (10, True, 2, 3), {'nlog': 3, 'nparam': 4}, 'rw'),
+            ('l1p1>l2p3:cache', (10, True, 2, 3), {'nlog': 1, 'nparam': 1}, 'rw')):
+        c = _cfg('small:after_other_device:%s' % nm, proto, ver, nl, np_, style='long', cache=cache)
+        c['prior'] = prior
+        out.append(c)
     return out
 
 
@@ -285,7 +313,7 @@ def run(ck):
     ck.rule = ('configurations x deviation vectors: each execution is a full connect of a real Crazyflie to SimCF; '
                'deviations = per-reply {dup, delay 0.25 s (past the 0.2 s retry -> stale reply later), drop (lossy '
                'links only)} and thread-order choices at every synchronisation point; non-trivial = at least one '
-               'deviation; distinct = (configuration, vector)')
+               'deviation; distinct = (configuration, vector); 8 configurations put a complete session of the same object with another device (other protocol generation, no versioning, other tables, with and without cache) in front')
     ck.assume('SimCF (vf/simcf.py) is the reference for the device tables and the TOC wire protocol (V1 and V2)')
     ck.assume('a library thread that is slow by itself for longer than a retry period is outside the explored space')
     ck.assume('unsolicited packets: one parameter value-changed notification queued at connect (three configurations); names '
